@@ -8,7 +8,11 @@ fn key(s: &str) -> String {
 }
 
 /// (rotation part, translation) of every 3-D entry point of one handedness
-fn entries<T: Tier>(rh: bool, eye: [T; 3], dir: [T; 3], up: [T; 3]) -> Vec<(&'static str, [[T; 3]; 3], Option<[T; 3]>)> {
+type Entry<T> = (&'static str, [[T; 3]; 3], Option<[T; 3]>);
+/// what a rigid motion has besides rotation and translation: the homogeneous row (0,0,0,1) of a Matrix4, scale 1 of a Decomposed
+type Aux<T> = Vec<(String, Vec<T>, Vec<T>)>;
+fn entries<T: Tier>(rh: bool, eye: [T; 3], dir: [T; 3], up: [T; 3]) -> (Vec<Entry<T>>, Aux<T>) {
+    let aux: std::cell::RefCell<Aux<T>> = std::cell::RefCell::new(Vec::new());
     let (e, d, u) = (mk_p3(eye), mk_v3(dir), mk_v3(up));
     let c = e + d;
     let lin4 = |m: Matrix4<T>| -> ([[T; 3]; 3], Option<[T; 3]>) {
@@ -20,6 +24,8 @@ fn entries<T: Tier>(rh: bool, eye: [T; 3], dir: [T; 3], up: [T; 3]) -> Vec<(&'st
     let mut push4 = |name: &'static str, m: Matrix4<T>| {
         let (r, t) = lin4(m);
         out.push((name, r, t));
+        let a = m4(m);
+        aux.borrow_mut().push((format!("{name}/bottom-row=0,0,0,1"), vec![a[0][3], a[1][3], a[2][3], a[3][3]], vec![T::zero(), T::zero(), T::zero(), T::one()]));
     };
     #[allow(deprecated)]
     if rh {
@@ -31,6 +37,7 @@ fn entries<T: Tier>(rh: bool, eye: [T; 3], dir: [T; 3], up: [T; 3]) -> Vec<(&'st
         // ... and Matrix3's / Decomposed's as the left-handed ones
         let m = Matrix3::look_at(d, u);
         let dq: Decomposed<Vector3<T>, Quaternion<T>> = Transform::look_at(e, c, u);
+        aux.borrow_mut().push(("Decomposed<Quaternion>::look_at (deprecated)/scale=1".to_string(), vec![dq.scale], vec![T::one()]));
         let dqm = m3(Matrix3::from(dq.rot));
         let tm = m3(<Matrix3<T> as Transform<Point3<T>>>::look_at(e, c, u));
         deprecated_lh = vec![("Matrix3::look_at (deprecated)", m3(m), None), ("Transform<Matrix3>::look_at (deprecated)", tm, None), ("Decomposed<Quaternion>::look_at (deprecated)", dqm, Some(v3(dq.disp)))];
@@ -48,8 +55,10 @@ fn entries<T: Tier>(rh: bool, eye: [T; 3], dir: [T; 3], up: [T; 3]) -> Vec<(&'st
         out.push(("Matrix3::look_to_rh", m3(Matrix3::look_to_rh(d, u)), None));
         out.push(("Transform<Matrix3>::look_at_rh", m3(<Matrix3<T> as Transform<Point3<T>>>::look_at_rh(e, c, u)), None));
         let dq: Decomposed<Vector3<T>, Quaternion<T>> = Transform::look_at_rh(e, c, u);
+        aux.borrow_mut().push(("Decomposed<Quaternion>::look_at_rh/scale=1".to_string(), vec![dq.scale], vec![T::one()]));
         out.push(("Decomposed<Quaternion>::look_at_rh", m3(Matrix3::from(dq.rot)), Some(v3(dq.disp))));
         let db: Decomposed<Vector3<T>, Basis3<T>> = Transform::look_at_rh(e, c, u);
+        aux.borrow_mut().push(("Decomposed<Basis3>::look_at_rh/scale=1".to_string(), vec![db.scale], vec![T::one()]));
         out.push(("Decomposed<Basis3>::look_at_rh", basis3_arr(db.rot), Some(v3(db.disp))));
     } else {
         out.push(("Matrix3::look_to_lh", m3(Matrix3::look_to_lh(d, u)), None));
@@ -59,28 +68,37 @@ fn entries<T: Tier>(rh: bool, eye: [T; 3], dir: [T; 3], up: [T; 3]) -> Vec<(&'st
         let b: Basis3<T> = Rotation::look_at(d, u);
         out.push(("Basis3::look_at", basis3_arr(b), None));
         let dq: Decomposed<Vector3<T>, Quaternion<T>> = Transform::look_at_lh(e, c, u);
+        aux.borrow_mut().push(("Decomposed<Quaternion>::look_at_lh/scale=1".to_string(), vec![dq.scale], vec![T::one()]));
         out.push(("Decomposed<Quaternion>::look_at_lh", m3(Matrix3::from(dq.rot)), Some(v3(dq.disp))));
         let db: Decomposed<Vector3<T>, Basis3<T>> = Transform::look_at_lh(e, c, u);
+        aux.borrow_mut().push(("Decomposed<Basis3>::look_at_lh/scale=1".to_string(), vec![db.scale], vec![T::one()]));
         out.push(("Decomposed<Basis3>::look_at_lh", basis3_arr(db.rot), Some(v3(db.disp))));
     }
     out.extend(deprecated_lh);
-    out
+    (out, aux.into_inner())
 }
 
 /// the statement's clauses for one (eye, dir, up); `want` is the unique rotation they determine
-fn judge3<T: Tier>(ctx: &mut Ctx, eye: [T; 3], dir: [T; 3], up: [T; 3], want_lh: [[T::M; 3]; 3], slack: f64) {
+/// `cond`: conditioning of the frame with respect to roundings of d/|d| - 1/sin of the angle between d and up; it widens
+/// the clauses that compare with the one true rotation (and the constructors with each other), not the ones that
+/// say the result is a rotation
+fn judge3<T: Tier>(ctx: &mut Ctx, eye: [T; 3], dir: [T; 3], up: [T; 3], want_lh: [[T::M; 3]; 3], slack: f64, cond: f64) {
+    let rslack = slack * cond.max(1.0);
     let (me, md, mu) = (lift_v(eye), lift_v(dir), lift_v(up));
     let dlen = model::vnorm(md);
     for rh in [false, true] {
         let hand = if rh { "rh" } else { "lh" };
         // right-handed = left-handed looking the other way with x and z mirrored: diag(-1,1,-1) * LH
         let want: [[T::M; 3]; 3] = if rh { std::array::from_fn(|c| [-want_lh[c][0], want_lh[c][1], -want_lh[c][2]]) } else { want_lh };
-        let es = entries::<T>(rh, eye, dir, up);
+        let (es, aux) = entries::<T>(rh, eye, dir, up);
+        for (name, got, want) in &aux {
+            same_slice(ctx, &key(name), got, want);
+        }
         for (name, rot, tr) in &es {
             let mr = lift_m(*rot);
             // the unique rigid motion fixed by the clauses
             let w: [[T::M; 3]; 3] = std::array::from_fn(|c| std::array::from_fn(|r| want[c][r].with_abs_err(4.0)));
-            eq_mc::<T, 3>(ctx, &key(&format!("{name}/rotation")), *rot, w, slack);
+            eq_mc::<T, 3>(ctx, &key(&format!("{name}/rotation")), *rot, w, rslack);
             // clause by clause, on the implementation's own result
             let g = model::mmul(model::mtranspose(mr), mr);
             let id = model::mident::<T::M, 3>();
@@ -112,7 +130,7 @@ fn judge3<T: Tier>(ctx: &mut Ctx, eye: [T; 3], dir: [T; 3], up: [T; 3], want_lh:
                 same_slice(ctx, &key(&format!("agree-{hand}/{name}")), &flat_m(*rot), &flat_m(r0));
             } else {
                 let w: [[T::M; 3]; 3] = std::array::from_fn(|c| std::array::from_fn(|r| r0[c][r].lift().with_abs_err(8.0)));
-                eq_mc::<T, 3>(ctx, &key(&format!("agree-{hand}/{name}")), *rot, w, slack);
+                eq_mc::<T, 3>(ctx, &key(&format!("agree-{hand}/{name}")), *rot, w, rslack);
             }
             let _ = n0;
         }
@@ -128,16 +146,20 @@ fn frames<T: Tier>(rep: &mut Report) {
     let fr = frames3(rep.pick(0, 1));
     let lambdas: [R; 3] = [(1, 2), (1, 1), (3, 1)];
     let alphas: [R; 3] = [(1, 1), (1, 2), (-2, 1)];
-    let betas: [R; 3] = [(0, 1), (1, 1), (-3, 1)];
+    // the last ones put up within 5e-3 rad (every tier) and 1e-6 rad (exact tier) of d: "not parallel" is all the statement asks
+    let mut betas: Vec<R> = vec![(0, 1), (1, 1), (-3, 1), (200, 1)];
+    if T::EXACT {
+        betas.push((-1000000, 1));
+    }
     let eyes: Vec<[R; 3]> = (0..4).map(|v| {
         let g = alphabet::generic(3, v);
         [g[0], g[1], g[2]]
     }).collect();
-    let dims = [fr.len(), 3, 3, 3, eyes.len()];
+    let dims = [fr.len(), 3, 3, betas.len(), eyes.len()];
     rep.cases(
         "frames3",
         T::NAME,
-        &format!("{} rational frames R x dir = lambda*R e_z (3) x up = alpha*R e_y + beta*R e_z (3x3) x {} eyes; 16 entry points", fr.len(), eyes.len()),
+        &format!("{} rational frames R x dir = lambda*R e_z (3) x up = alpha*R e_y + beta*R e_z (3x{}, beta/alpha up to 200, exact tier 1e6) x {} eyes; 19 entry points", fr.len(), betas.len(), eyes.len()),
         alphabet::product_len(&dims),
         Guard::states(200).distinct(100).inconclusive(0.01),
         |i, ctx| {
@@ -155,7 +177,8 @@ fn frames<T: Tier>(rep: &mut Report) {
             let s = if al.0 > 0 { Ex::int(1) } else { Ex::int(-1) };
             let want_x: [[Ex; 3]; 3] = std::array::from_fn(|c| [s * r[0][c], s * r[1][c], r[2][c]]);
             let want: [[T::M; 3]; 3] = std::array::from_fn(|c| std::array::from_fn(|rr| T::q(want_x[c][rr].num() as i64, want_x[c][rr].den() as i64).lift()));
-            judge3::<T>(ctx, eye, dir, up, want, 4.0);
+            let cond = 1.0 + (be.0 as f64 / be.1 as f64 / (al.0 as f64 / al.1 as f64)).abs() / 16.0;
+            judge3::<T>(ctx, eye, dir, up, want, 4.0, cond);
         },
     );
 }
@@ -204,7 +227,7 @@ fn grid3_at<T: Tier + Dom<M = Sh>>(rep: &mut Report, name: &str, r: i64, sc: (i3
             let sd = model::vnormalize(model::cross(mu, f));
             let u2 = model::cross(f, sd);
             let want: [[Sh; 3]; 3] = std::array::from_fn(|c| [sd[c], u2[c], f[c]]);
-            judge3::<T>(ctx, eye, dir, up, want, 8.0);
+            judge3::<T>(ctx, eye, dir, up, want, 8.0, 1.0);
         },
     );
 }
@@ -216,18 +239,21 @@ fn planar<T: Tier>(rep: &mut Report) {
         let g = alphabet::generic(2, v % 4);
         if v < 4 { [g[0], g[1]] } else { [(g[0].0 * -1, g[0].1), g[1]] }
     }).collect();
-    let dims = [us.len(), 3, ups.len()];
+    // float tiers: also very short and very long d (2-D look_at needs |d|^2 only)
+    let scales: Vec<i32> = if T::EXACT { vec![0] } else if T::NAME == "F" { vec![0, -30, 30] } else { vec![0, -250, 250] };
+    let dims = [us.len(), 3, ups.len(), scales.len()];
     rep.cases(
         "planar",
         T::NAME,
-        &format!("{} rational directions x 3 lengths x {} up vectors (both sides); Matrix2/Basis2 look_at and look_at_stable", us.len(), ups.len()),
+        &format!("{} rational directions x 3 lengths x {} up vectors (both sides) x scales 2^{:?}; Matrix2/Basis2 look_at and look_at_stable", us.len(), ups.len(), scales),
         alphabet::product_len(&dims),
         Guard::states(100).distinct(50).need("up-clockwise", 5).need("up-counter-clockwise", 5),
         |i, ctx| {
             let d = alphabet::decode(i, &dims);
             let (un, ud) = us[d[0]];
             let la = lambdas[d[1]];
-            let dir: [T; 2] = [T::q(un[0] * la.0, ud * la.1), T::q(un[1] * la.0, ud * la.1)];
+            let sc: T = if scales[d[3]] == 0 { T::one() } else { num_traits::cast::<f64, T>(2f64.powi(scales[d[3]])).unwrap() };
+            let dir: [T; 2] = [T::q(un[0] * la.0, ud * la.1) * sc, T::q(un[1] * la.0, ud * la.1) * sc];
             let up: [T; 2] = vec_from_r(&ups[d[2]]);
             ctx.describe(|| format!("dir={:?} up={:?}", dir, up));
             ctx.out(&d);
